@@ -26,7 +26,7 @@ from easynetwork.servers.async_tcp import AsyncTCPNetworkServer
 from easynetwork.servers.async_udp import AsyncUDPNetworkServer
 from easynetwork.servers.handlers import AsyncDatagramRequestHandler, AsyncStreamRequestHandler
 
-from vlib import tlspeer, vloop
+from vlib import netutil, tlspeer, vloop
 
 PROPERTY = "C17"
 LEVEL = "fault_enumeration"
@@ -184,7 +184,7 @@ class _Up:
 async def _connect(addr) -> socket.socket:
     s = socket.socket()
     s.setblocking(False)
-    s.bind(("127.0.0.1", 0))
+    s.bind((netutil.rand_loopback(), 0))
     await asyncio.get_running_loop().sock_connect(s, addr)
     return s
 
@@ -285,7 +285,7 @@ def tcp_scenario(tls: bool, exc: str | None, position: str | None, setup_fault: 
         faulty_ports: set = set()
         handler = StreamHandler(faulty_ports, exc or "", position or "", log)
         server = AsyncTCPNetworkServer(
-            "127.0.0.1", 0, StreamProtocol(StringLineSerializer()), handler, backend,
+            netutil.rand_loopback(), 0, StreamProtocol(StringLineSerializer()), handler, backend,
             ssl=tlspeer.server_context("1.3") if tls else None,
             ssl_handshake_timeout=0.3 if tls else None, ssl_shutdown_timeout=0.3 if tls else None,
             logger=quiet_logger(records),
@@ -318,7 +318,7 @@ def tcp_scenario(tls: bool, exc: str | None, position: str | None, setup_fault: 
         async def faulty():
             s = socket.socket()
             s.setblocking(False)
-            s.bind(("127.0.0.1", 0))
+            s.bind((netutil.rand_loopback(), 0))
             port = s.getsockname()[1]
             faulty_ports.add(port)
             res["faulty_port"] = port
@@ -482,7 +482,7 @@ def udp_scenario(exc: str, position: str) -> dict:
         backend = AsyncIOBackend()
         faulty_ports: set = set()
         handler = DgramHandler(faulty_ports, exc, position, log)
-        server = AsyncUDPNetworkServer("127.0.0.1", 0, DatagramProtocol(StringLineSerializer()), handler, backend, logger=quiet_logger(records))
+        server = AsyncUDPNetworkServer(netutil.rand_loopback(), 0, DatagramProtocol(StringLineSerializer()), handler, backend, logger=quiet_logger(records))
         up = _Up()
         st = asyncio.ensure_future(server.serve_forever(is_up_event=up))
         await asyncio.wait_for(up.ev.wait(), 30)
@@ -493,7 +493,7 @@ def udp_scenario(exc: str, position: str) -> dict:
 
         def usock():
             s = socket.socket(socket.AF_INET, socket.SOCK_DGRAM)
-            s.bind(("127.0.0.1", 0))
+            s.bind((netutil.rand_loopback(), 0))
             s.connect(addr)
             s.setblocking(False)
             return s
